@@ -14,10 +14,15 @@ Line-protocol driver for the C04 model (Model/Rollup.lean).
                                          initial offset off0 (s) and transitions (UTC second, new offset); day numbers are
                                          wall-clock days, the segment time of a day store is that local midnight)
   arithz <src> <tgt> <srcSegTime> <fTime> | <slot> ... | <off0> <at1> <off1> ...
+  topen <tgt> <segTime> | tclose <tgt> <segTime>   (round 10: CreateStore / CloseStore of ONE target store while the
+                                         source family objects live on; the model keeps the registry and resolves the
+                                         target of every rollup run itself: `avail=` of the rollup ops only lists the
+                                         intervals whose job did not fail for another reason)
 -/
 import LinVerif.Util.Proto
 import LinVerif.Model.Rollup
 import LinVerif.Model.C04Zone
+import LinVerif.Model.C04Resolve
 import LinVerif.Generated.C04
 
 namespace LinVerif.Driver.C04
@@ -36,6 +41,8 @@ structure DS where
   dead : Bool := false
   /-- `time.Local` of the case (`none` = UTC, the `Cal` model) -/
   zone : Option LinVerif.Interval.Zone := none
+  /-- registry of target stores, generations, (second shape) cached targets; its `st` is not used -/
+  wr : World := {}
 
 /-- the shape of `(*month).CalcFamily` the code has (regenerated) -/
 def byCal : Bool := Generated.C04.monthFamilyIsCalendarDay
@@ -58,6 +65,23 @@ def DS.rOf (d : DS) (c : Nat) (tgt : Int) : R :=
 def DS.locKey (d : DS) (c : Nat) (tgt : Int) : String :=
   let l := d.locOf c tgt
   s!"{l.tSegTime}/{l.tFamily}"
+
+/-- the shape of the target resolution the code has (regenerated): `false` = lookup on every run -/
+def cachedShape : Bool := !Generated.C04.rollupResolvesTargetPerRun
+/-- the target store `rollup()` of family `c` looks up for interval `i` -/
+def DS.nameOf (d : DS) (c : Nat) (i : Iv) : TName := (i, (d.locOf c (i : Int)).tSegTime)
+def DS.world (d : DS) : World := { d.wr with st := d.st }
+/-- the intervals of a run whose job can commit: not failed for another reason (`av`) and the resolved
+target is a live object (`World.step`, rollup branch) -/
+def DS.effAvail (d : DS) (h : Nat) (ivs av : List Nat) : List Nat :=
+  ivs.filter (fun i => decide (i ∈ av) && d.world.canCommit cachedShape d.nameOf h i)
+/-- registry/cache after a run of family `h` (a cut run is followed by a restart: every object is new) -/
+def DS.afterRun (d : DS) (h : Nat) (ivs : List Nat) (cut : Bool) : World :=
+  let w1 := { d.world with cache := d.world.fillCache cachedShape d.nameOf h ivs }
+  if cut then w1.renew else w1
+def showReg (w : World) : String :=
+  let l := w.reg.map (fun o => s!"{o.1.1}:{o.1.2}")
+  "reg=" ++ ",".intercalate (l.toArray.qsort (· < ·)).toList
 
 /-- `off0 at1 off1 at2 off2 ...` -/
 def parseZone (ws : List String) : Option LinVerif.Interval.Zone :=
@@ -98,6 +122,11 @@ def showRefs (rs : List (Iv × Key)) : String :=
   commaList ((canon3 (rs.map (fun r => (r.1, r.2.1, r.2.2)))).map (fun (i, h, f) => s!"{i}:{h}.{f}"))
 
 def showState (σ : St) : String := s!"pending={showPairs σ.pending} refs={showRefs σ.refs}"
+
+/-- the bookkeeping as the harness can read it: the references of a target store that is closed are on disk
+only (not visible through the store manager) -/
+def DS.showSt (d : DS) (σ : St) : String :=
+  showState { σ with refs := σ.refs.filter (fun q => (d.world.lookup (d.nameOf q.2.1 q.1)).isSome) }
 
 def showRec : Rec → String
   | .flush k ne ivs =>
@@ -184,7 +213,7 @@ def step (d : DS) (ws : List String) : DS × String :=
       if d.st.registered.all (fun p => decide (p.1 ≠ (h, f))) && d.files.all (fun p => decide (p.1 ≠ (h, f))) then
         let r := Rec.flush (h, f) (ne ≠ 0) d.tgts
         let σ := d.st.step (.flush h f (ne ≠ 0) d.tgts)
-        ({ d with st := σ, files := d.files ++ [((h, f), blocks)] }, s!"rec={showRec r} {showState σ}")
+        ({ d with st := σ, files := d.files ++ [((h, f), blocks)] }, s!"rec={showRec r} {d.showSt σ}")
       else (d, "stale-file-number")
     | _, _, _, _ => (d, "bad-op")
   | ["rollup", h, ivs, dvs, avail, cut] =>
@@ -195,6 +224,7 @@ def step (d : DS) (ws : List String) : DS × String :=
       match cut? with
       | none => (d, "bad-op")
       | some cut =>
+        let av := d.effAvail h ivs av
         let all := rollupRecs d.st h ivs (fun i => decide (i ∈ av)) dvs
         let recs := match cut with | none => all | some n => all.take n
         -- data: outputs of the committed merge records
@@ -211,7 +241,8 @@ def step (d : DS) (ws : List String) : DS × String :=
         | some o =>
           let σ := d.st.step (.rollup h ivs av dvs cut)
           let rs := if recs.isEmpty then "-" else ";".intercalate (recs.map showRec)
-          ({ d with st := σ, tfiles := d.tfiles ++ o }, s!"recs={rs} {showState σ}")
+          ({ d with st := σ, tfiles := d.tfiles ++ o, wr := d.afterRun h ivs cut.isSome },
+            s!"recs={rs} {d.showSt σ}")
     | _, _, _, _, _ => (d, "bad-op")
   | ["rollupq", h, ivs, dvs, avail] =>
     -- the job of family `h` inside ONE Store.ForceRollup (jobs of different families interleave;
@@ -219,6 +250,7 @@ def step (d : DS) (ws : List String) : DS × String :=
     match h.toNat?, (kv? ivs "ivs").bind parseNatList, (kv? dvs "dvs").bind parseNatList,
       (kv? avail "avail").bind parseNatList with
     | some h, some ivs, some dvs, some av =>
+      let av := d.effAvail h ivs av
       let recs := rollupRecs d.st h ivs (fun i => decide (i ∈ av)) dvs
       let outs : Option (List ((Iv × String) × FileData)) := recs.foldl (fun acc r =>
         match acc, r with
@@ -233,7 +265,7 @@ def step (d : DS) (ws : List String) : DS × String :=
       | some o =>
         let σ := d.st.step (.rollup h ivs av dvs none)
         let rs := if recs.isEmpty then "-" else ";".intercalate (recs.map showRec)
-        ({ d with st := σ, tfiles := d.tfiles ++ o }, s!"recs={rs}")
+        ({ d with st := σ, tfiles := d.tfiles ++ o, wr := d.afterRun h ivs false }, s!"recs={rs}")
     | _, _, _, _ => (d, "bad-op")
   | ["rollupf", h, ivs, dvs, avail, fail] =>
     -- a complete rollup run in which the manifest commit of record number `fail` FAILS (I/O error): the
@@ -242,6 +274,7 @@ def step (d : DS) (ws : List String) : DS × String :=
     match h.toNat?, (kv? ivs "ivs").bind parseNatList, (kv? dvs "dvs").bind parseNatList,
       (kv? avail "avail").bind parseNatList, (kv? fail "fail").bind String.toNat? with
     | some h, some ivs, some dvs, some av, some k =>
+      let av := d.effAvail h ivs av
       let all := rollupRecs d.st h ivs (fun i => decide (i ∈ av)) dvs
       let recs := rollupRecsFailing (Generated.C04.installCommitResult == "checked")
         (Generated.C04.rollupSourceCommitResult == "checked") d.st h ivs (fun i => decide (i ∈ av)) dvs k
@@ -259,21 +292,37 @@ def step (d : DS) (ws : List String) : DS × String :=
         let σ := d.st.applyAll recs
         let rs := if recs.isEmpty then "-" else ";".intercalate (recs.map showRec)
         let failed := match all[k]? with | some r => showRec r | none => "-"
-        ({ d with st := σ, tfiles := d.tfiles ++ o }, s!"recs={rs} failed={failed} {showState σ}")
+        ({ d with st := σ, tfiles := d.tfiles ++ o, wr := d.afterRun h ivs false },
+          s!"recs={rs} failed={failed} {d.showSt σ}")
     | _, _, _, _, _ => (d, "bad-op")
-  | ["state"] => (d, showState d.st)
+  | ["state"] => (d, d.showSt d.st)
   | ["compact", ks] =>
     -- (outside C04's operations) a compaction of the source family: the files leave level 0
     match (ks.splitOn ",").mapM (fun w => match w.splitOn "." with
         | [a, b] => do let x ← a.toNat?; let y ← b.toNat?; some (x, y)
         | _ => none) with
-    | some keys => let σ := d.st.apply (.compact keys); ({ d with st := σ }, showState σ)
+    | some keys => let σ := d.st.apply (.compact keys); ({ d with st := σ }, d.showSt σ)
     | none => (d, "bad-op")
   | ["reopen"] =>
     -- close + open: the manifest snapshot (`createFamilySnapshot`, shape regenerated) replayed into
     -- fresh versions
     let σ := d.st.restart Generated.C04.snapshotRefFamilyIsLoopVar (fun _ => 0) id
-    ({ d with st := σ }, showState σ)
+    ({ d with st := σ, wr := d.world.renew }, d.showSt σ)
+  | ["topen", tgt, seg] =>
+    -- CreateStore of one target store (`World.step`, `.topen`): a new object unless one is registered
+    match tgt.toNat?, seg.toInt? with
+    | some t, some sg =>
+      let w := d.world.step cachedShape d.nameOf (fun _ => 0) (.topen (t, sg) id)
+      let d' := { d with st := w.st, wr := w }
+      (d', s!"{showReg w} {d'.showSt w.st}")
+    | _, _ => (d, "bad-op")
+  | ["tclose", tgt, seg] =>
+    match tgt.toNat?, seg.toInt? with
+    | some t, some sg =>
+      let w := d.world.step cachedShape d.nameOf (fun _ => 0) (.tclose (t, sg))
+      let d' := { d with st := w.st, wr := w }
+      (d', s!"{showReg w} {d'.showSt w.st}")
+    | _, _ => (d, "bad-op")
   | ["read", tgt] =>
     match tgt.toNat? with
     | some t =>
